@@ -157,6 +157,7 @@ def rule_one_path(ctx, px):
         raise AnalysisError("anchor changed: IncludeGenerator.make_path(dt, language, output_extension)")
     dt, lang, ext = ps[0], ps[1], ps[2]
     cl = _closure(mp.node, _returns(mp.node))
+    cl = cl + [pyfront.subst_locals(mp.node, r) for r in _returns(mp.node)]    # hoisted locals are the same expressions
     ns_calls = [c for e in cl for c in _calls(e, "_make_ns_list")]
     ok = bool(ns_calls) and all(dt in set().union(*[_names(a) for a in c.args] or [set()]) and lang in set().union(*[_names(a) for a in c.args] or [set()]) for c in ns_calls)
     ctx.ob(R, mp.module.rel, f"{mp.short} :: directories = _make_ns_list(language, <the type>)", ok,
@@ -185,7 +186,7 @@ def rule_one_path(ctx, px):
     rets = _returns(nl.node)
     okr = []
     for r in rets:
-        r = _unwrap_cast(r)
+        r = _unwrap_cast(pyfront.subst_locals(nl.node, r))
         if _is_ns_split(r, ndt):
             okr.append(True)
         elif isinstance(r, (ast.ListComp, ast.GeneratorExp)) and len(r.generators) == 1 and _is_ns_split(r.generators[0].iter, ndt) and not r.generators[0].ifs:
@@ -216,7 +217,7 @@ def rule_one_path(ctx, px):
     if ok:
         st = stores[0]
         key = st.targets[0].slice
-        v = st.value
+        v = pyfront.subst_locals(add.node, st.value)
         mk = _calls(v, "make_path")
         ok = isinstance(key, ast.Name) and key.id == aps[0] and isinstance(v, ast.BinOp) and isinstance(v.op, ast.Div) and \
             "_base_output_path" in _attrs(v.left) and len(mk) == 1 and bool(_calls(v.right, "make_path"))
@@ -318,7 +319,13 @@ def rule_one_path(ctx, px):
         g = pyfront.guards_of(bfs.node, loops[0].iter if isinstance(loops[0], ast.For) else loops[0])
         terms = pyfront.guard_terms(g or ())
         skip = _params(bfs)[1] if len(_params(bfs)) > 1 else "skip_namespace"
-        ok = not any(skip in e for e, p in terms)
+        def atomic(e):
+            try:
+                return not isinstance(ast.parse(e, mode="eval").body, ast.BoolOp)
+            except SyntaxError:
+                return True
+        # only a condition that is *implied* on the way to the enqueue counts: `not (a and b)` after an early return implies neither
+        ok = not any(skip in e and atomic(e) for e, p in terms)
         ctx.ob(R, bfs.module.rel, f"{bfs.short} :: children of a skipped namespace are still searched", ok, f"{terms}", loops[0].lineno)
 
 
@@ -462,6 +469,7 @@ def _ancestors(ctx, R, m, bt):
     adds = [c for c in ast.walk(bt.node) if isinstance(c, ast.Call) and isinstance(c.func, ast.Attribute) and c.func.attr in ("add", "update")]
     pm = pyfront.parent_map(bt.node)
     ok, detail = False, "no loop indexing the ancestors of a type's namespace was recognised"
+    lp = None
     for c in adds:
         lp = pm.get(id(c))
         while lp is not None and not isinstance(lp, ast.For):
@@ -500,6 +508,44 @@ def _ancestors(ctx, R, m, bt):
             detail = "the ancestor loop is left early on a condition other than 'already indexed'"
         ok = good and good_slice and good_break
         break
+    if not ok and detail.startswith("no loop indexing"):
+        lp = None
+        # the other idiom: walk up from the type's own namespace, one component at a time
+        #     v = <type>.full_namespace
+        #     while v [and v not in index]:  index.add(v); v = v.rpartition(".")[0]
+        for w in [n for n in ast.walk(bt.node) if isinstance(n, ast.While)]:
+            w_adds = [c for c in ast.walk(w) if isinstance(c, ast.Call) and isinstance(c.func, ast.Attribute) and c.func.attr == "add" and c.args
+                      and isinstance(c.args[0], ast.Name)]
+            if not w_adds:
+                continue
+            v = w_adds[0].args[0].id
+            steps = [n for n in ast.walk(w) if isinstance(n, ast.Assign) and any(isinstance(t, ast.Name) and t.id == v for t in n.targets)]
+            inits = [n.value for n in ast.walk(bt.node) if isinstance(n, ast.Assign) and any(isinstance(t, ast.Name) and t.id == v for t in n.targets)
+                     and not any(n is s_ for s_ in steps)]
+            good_init = bool(inits) and all(isinstance(i, ast.Attribute) and i.attr == "full_namespace" for i in inits)
+
+            def parent_of_self(e):
+                # v.rpartition(".")[0]  /  v.rsplit(".", 1)[0]
+                return isinstance(e, ast.Subscript) and isinstance(e.slice, ast.Constant) and e.slice.value == 0 and isinstance(e.value, ast.Call) \
+                    and isinstance(e.value.func, ast.Attribute) and e.value.func.attr in ("rpartition", "rsplit") \
+                    and isinstance(e.value.func.value, ast.Name) and e.value.func.value.id == v \
+                    and e.value.args and isinstance(e.value.args[0], ast.Constant) and e.value.args[0].value == "."
+            good_step = len(steps) == 1 and parent_of_self(steps[0].value)
+            tnames = {x.id for x in ast.walk(w.test) if isinstance(x, ast.Name)}
+            good_test = v in tnames
+            brs = [b for b in ast.walk(w) if isinstance(b, (ast.Break, ast.Continue, ast.Return))]
+            lp = w
+            ok = good_init and good_step and good_test and not brs
+            if not good_init:
+                detail = "the walk does not start at the type's own namespace"
+            elif not good_step:
+                detail = ("the step does not take the parent of the running ancestor (v = v.rpartition('.')[0]): with more than one empty intermediate "
+                          "namespace the chain to the root is not indexed and the deep sub-tree is disconnected")
+            elif not good_test:
+                detail = "the loop condition does not test the running ancestor"
+            else:
+                detail = "the ancestor walk is left early"
+            break
     ctx.ob(R, m.rel, f"{bt.short} :: every ancestor namespace of a type is indexed", ok, "" if ok else detail, bt.node.lineno)
     # the loop is skipped only when the namespace already existed
     if ok:
